@@ -6,6 +6,9 @@ CONSTANTS
   FixSend = FALSE
   FixReader = FALSE
   Banned = {}
+  Asking = {}
+  AskAnswersInHand = TRUE
+  BufCap = 3
   FixFlushOnStop = TRUE
   MaxResets = 1
   WithStop = TRUE
